@@ -36,7 +36,7 @@ TRACE_SPEC = os.path.join(tlc.SPEC_DIR, 'trace', 'Trace_Compose.tla')
 
 NONE = -1
 TOL = 2
-KNOWN_DEFECTS = ['fastpath_opacity', 'blend_alpha', 'combine_clip', 'opaque_zero', 'combine_range', 'clip_bbox', 'combine_ssrs']
+KNOWN_DEFECTS = ['fastpath_opacity', 'blend_alpha', 'combine_clip', 'opaque_zero', 'combine_range', 'clip_bbox', 'combine_ssrs', 'dup_first']
 HYPOTHETICAL = ['prune_any', 'no_bgcolor', 'reverse_order', 'drop_opacity', 'combine_far']
 ACTIONS = ['AddLayer', 'Submit', 'SelectSkip', 'SelectOpaque', 'SelectAdd', 'CombineDone', 'CombineFirst', 'CombineMerge',
            'CombineKeep', 'RenderDone', 'RenderBlank', 'RenderSub', 'RenderFull', 'MergeEmpty', 'MergeFast',
@@ -487,10 +487,21 @@ def relevant(world, names, o):
 def enumerate_stacks(world, shallow, maxstack):
     """the stacks TLC enumerates (Compose!AddLayer): all of length <= shallow, longer ones over world.reduced"""
     names = sorted(world.layers)
+    reduced = set(world.reduced)
     for k in range(1, maxstack + 1):
         pool = names if k <= shallow else sorted(world.reduced)
         for st in itertools.permutations(pool, k):
             yield st
+        # ... and the stacks that name ONE layer twice, over the reduced catalogue (Compose!AddLayer)
+        if k >= 2:
+            rp = sorted(reduced)
+            for base in itertools.permutations(rp, k - 1):
+                for name in base:
+                    if any(x['kind'] == 'err' for x in world.layers[name]['srcs']):
+                        continue
+                    first = base.index(name)
+                    for pos in range(first + 1, k):
+                        yield base[:pos] + (name,) + base[pos:]
 
 
 def enumerate_cases(world, opts, shallow, maxstack):
@@ -589,7 +600,7 @@ def judge(obs, exp, nsrc=1):
 
 NOTE_OF = {'fastpath_opacity': 'fast_faded', 'blend_alpha': 'blend', 'combine_clip': 'combine_mixed_clip',
            'opaque_zero': 'prune_invisible', 'combine_range': 'combine_out_of_range', 'clip_bbox': 'crash_clip_bbox',
-           'combine_ssrs': 'crash_combine_ssrs'}
+           'combine_ssrs': 'crash_combine_ssrs', 'dup_first': 'dup_first'}
 
 
 def describe(names, o):
@@ -611,7 +622,9 @@ def witnesses(world):
              ('combine_clip', ['o_n_c', 'o_n_u2'], mk_opt(True, green, z, 'fine'), 'ups'),
              ('opaque_zero', ['o_n_x', 'o_0_x'], mk_opt(True, green, z, 'fine'), 'ups'),
              ('combine_range', ['ms1'], mk_opt(True, green, z, 'coarse'), 'ups'),
-             ('combine_ssrs', ['r_n_x', 'r_n_xs'], mk_opt(True, green, z, 'fine'), 'status')]
+             ('combine_ssrs', ['r_n_x', 'r_n_xs'], mk_opt(True, green, z, 'fine'), 'status'),
+             # a layer named twice: drawn below AND above the layer between (LAYERS=a,b,a)
+             ('dup_first', ['r_n_x', 'r_50_x', 'r_n_x'], mk_opt(True, green, z, 'fine'), 'ups')]
     return [x for x in w if all(n in world.layers for n in x[1])]
 
 
